@@ -71,6 +71,29 @@ CLAIMED = {
          "str.strip contract; any number of children rests on the per-part round trip and the pointwise child maps; attribute domain None/str/int.",
     technique="contract-based deductive verification: VCs from the real AST by symbolic execution, z3; external XML library behind an assumed, sampled contract",
     design="4 C03"),
+ "C11": dict(
+    category="proof",
+    text="Deductive, for ANY buffer content and ANY threshold (enabled or disabled): Buffer.process is verified against a contract whose loop carries "
+         "the variant |data| (strictly decreasing on every back edge: termination), hands only values produced by IndiMessage.from_string to the consumer "
+         "(genuineness), raises nothing of its own, and returns with |data| <= threshold when the threshold is enabled; it uses the contracts of "
+         "_cleanup_buffer (keeps a suffix; loop invariant over an arbitrary tag list), _cleanup_beginning (drops at least one character) and "
+         "_find_message_in_buffer (nothing or a genuine message with 1 <= end <= |data|; scan loop with variant), each verified on its real body. "
+         "The whole-stream clauses (junk never delays valid neighbours; recovery after a corrupt element) are exercised by a bounded native corpus only.",
+    note="ASSUMED: ET.fromstring raises only ParseError on Latin-1 text; IndiMessage.from_string raises or returns a message. z3 sequence theory with "
+         "cvc5 --strings-exp as second back end (only `unsat` used). The liveness-style clauses are bounded (stand-in), stated in the evidence.",
+    technique="contract-based deductive verification: VCs from the real AST (loop invariants, variants, modular helper contracts), z3 + cvc5 for strings; bounded native stand-in for whole-stream clauses",
+    design="4 C02/C11"),
+ "C02": dict(
+    category="proof",
+    text="Deductive per-call lemmas on the real code, for arbitrary text around the message: (1) junk removal leaves exactly the text from the first known-tag "
+         "opener on (any tag list, invariant with the grammar's gap condition); (2) when a complete message text is at the front of the buffer -- whatever "
+         "follows -- the scan returns exactly that message and its length, never a proper prefix, never nothing (XML prefix axiom assumed), and otherwise only "
+         "genuine messages; (3) process delivers exactly what the scan found, consumes exactly its text, then removes junk, keeps a suffix and terminates. "
+         "Losslessness, order, exactly-once and promptness for a whole fragmented stream follow by induction over the stream; that induction is argued in "
+         "DESIGN.md and exercised by a bounded native fragmentation stand-in (every 1-cut, sampled 2-cut, char-by-char, random cuts; 3 thresholds), not discharged by the solver.",
+    note="As C11, plus the XML prefix axiom and the stream grammar of the statement as assumptions; the composition over the stream is NOT machine-checked.",
+    technique="contract-based deductive verification: VCs from the real AST, string obligations discharged by cvc5 --strings-exp / z3; bounded native stand-in for the stream-level composition",
+    design="4 C02/C11"),
 }
 
 NOT_YET = "check not built yet (work in progress)"
